@@ -200,6 +200,33 @@ CHECKS["C05"] = dict(
     technique="Coq proof of the crawl funnel (monitor soundness/completeness) + rule sweep over corpus and mutations", design_ref="§9",
 )
 
+CHECKS["C01"] = dict(
+    category="proof",
+    text=("Coq theorems C01_lex_lossless_contiguous (for every text, matcher table and regex oracle with non-empty in-bounds matches, the element "
+          "sequence the lexer loop returns tiles the rendered text: non-empty, contiguous, increasing, covering [0,n)) and C01_lex_total (the loop "
+          "terminates within n+1 rounds and never reports 'Unable to lex' when the last-resort matcher covers what the table matchers refuse; "
+          "C29 discharges that hypothesis for all bundled dialects). The loop model is tied to PyLexer.lex by tabulating the real matcher objects "
+          "at every position of sample strings per dialect. PARTIAL: source-position assignment for templated files (_iter_segments, "
+          "placeholders, loops) is not modelled; it is monitored on real lexer output for raw/jinja/python/placeholder sources (generated "
+          "templates, every placeholder style, fixtures + mutations + arbitrary Unicode in every dialect) against an oracle written from the "
+          "property text. Open finding F11 (negative-length source slice for a token spanning two loop iterations); split-whitespace templated "
+          "positions were repaired in /repo."),
+    note=("Trusted: Coq kernel, hand model Model/Lexer.v, the per-position tabulation of real matchers, harness/lexcheck.py oracle. No axioms."),
+    technique="Coq proof of the lexer loop over a regex oracle + tabulated correspondence + token-stream monitor across templaters", design_ref="§5",
+)
+CHECKS["C06"] = dict(
+    category="proof",
+    text=("PARTIAL. Proved in Coq over abstract per-option match outcomes: C06_prune_sound (for every option list, terminator set and position, "
+          "first-token pruning does not change longest_match's result if every pruned option would have matched nothing) and C06_cache_transparent "
+          "(for every request history the parse cache returns what a fresh match would if the context the key omits does not influence the match), "
+          "with _refuted theorems showing neither condition can be dropped. That the real grammars meet both conditions is validated per parse: "
+          "differential parses (cache off, pruning off, both off, after other files incl. failing ones, in another process) compared as canonical "
+          "trees, and on a third of the parses every pruned option is matched anyway and must match nothing; fixtures of every dialect + mutations."),
+    note=("Trusted: Coq kernel, hand model Model/ParseOpt.v of longest_match/prune_options/cache, monkeypatch wrappers. The grammar combinators are "
+          "not modelled: determinism of real parses is validated, not proved. No axioms."),
+    technique="Coq proof of the optimisations' side conditions + differential parsing that validates them per run", design_ref="§10",
+)
+
 NOT_YET = "no check built yet in this round (planned: see DESIGN.md section for this property)"
 
 
